@@ -230,8 +230,9 @@ Fixpoint t_run (t : tstate) (os : list top) : option tstate :=
 
 (* ---- reads, as functions of the state ---- *)
 Inductive tread :=
-| QSize | QGetValue (x y : Z) | QRowValues (y : Z) | QValues | QColumnValues (x : Z) | QRowWidth (y : Z).
-Inductive tans := ASize (w h : Z) | AValue (v : Z) | AList (l : list Z) | AMatrix (m : list (list Z)).
+| QSize | QGetValue (x y : Z) | QRowValues (y : Z) | QValues | QColumnValues (x : Z) | QRowWidth (y : Z)
+| QArea (x y z t : Z) | QGetCell (x y : Z).
+Inductive tans := ASize (w h : Z) | AValue (v : Z) | AList (l : list Z) | AMatrix (m : list (list Z)) | ACell (c : cell).
 
 (* Table.get_value((x,y)) as a value id (0 = None) *)
 Definition t_get_value (x y : Z) (t : tstate) : Z :=
@@ -240,6 +241,13 @@ Definition t_get_value (x y : Z) (t : tstate) : Z :=
   else match row_at y t with
        | Some (_, (_, cs)) => match cell_at x cs with Some c => fst c | None => 0 end
        | None => 0 end.
+(* Table.get_cell((x,y)): a copy of the cell (value and style), an empty cell outside the table or beyond the row *)
+Definition t_get_cell (x y : Z) (t : tstate) : cell :=
+  let x := nx x t in let y := ny y t in
+  if theight t <=? y then empty_cell
+  else match row_at y t with
+       | Some (_, (_, cs)) => match cell_at x cs with Some c => c | None => empty_cell end
+       | None => empty_cell end.
 Definition pad_to (w : Z) (l : list Z) : list Z := l ++ repeat 0 (Z.to_nat (w - Z.of_nat (length l))).
 (* Table.get_row_values(y): get_row(y, clone=False) = the run's row or a new Row, completed to the table width *)
 Definition t_row_values (y : Z) (t : tstate) : list Z :=
@@ -255,6 +263,12 @@ Definition t_column_values (x : Z) (t : tstate) : list Z :=
 (* get_row(y).width *)
 Definition t_row_width (y : Z) (t : tstate) : Z :=
   match base_row (ny y t) t with Some (_, cs) => rwidth cs | None => 0 end.
+(* Table.get_values(coord=(x,y,z,t)): Table.traverse(start=y, end=t) expands the rows; each row answers
+   Row.get_values((x,z)) = Row.traverse(start=x, end=z) through its map, completed to min(z+1, width) - x values *)
+Definition t_area (x y z t : Z) (st : tstate) : list (list Z) :=
+  let x := nx x st in let z := nx z st in let y := ny y st in let t := ny t st in
+  map (fun r : rowx => pad_to (Z.min (z + 1) (twidth st) - x) (map fst (traverse_range x z (snd r))))
+      (firstn (Z.to_nat (t + 1 - y)) (skipn (Z.to_nat y) (expand (rows st)))).
 Definition t_read (t : tstate) (q : tread) : tans :=
   match q with
   | QSize => ASize (twidth t) (theight t)
@@ -263,6 +277,8 @@ Definition t_read (t : tstate) (q : tread) : tans :=
   | QValues => AMatrix (t_values t)
   | QColumnValues x => AList (t_column_values x t)
   | QRowWidth y => ASize (t_row_width y t) 0
+  | QArea x y z t' => AMatrix (t_area x y z t' t)
+  | QGetCell x y => ACell (t_get_cell x y t)
   end.
 
 (* ---- the faithful model of the PINNED mutators that differ from the repaired ones (for ..._refuted) ---- *)
